@@ -198,6 +198,30 @@ func run(c *lib.Ctx) error {
 		progSeen[p] = true
 		progs = append(progs, p)
 	}
+	// escape sequences of double-quoted strings, generated by TLC from DQEscape.tla (every valid
+	// escape over digit representatives; "special" = a proper digit prefix denotes a surrogate /
+	// sits at the octal boundary). Prefixes cut inside the escape at every byte.
+	escs, err := escapePrograms(c, dir)
+	if err != nil {
+		return err
+	}
+	nEsc := 0
+	for _, p := range escs {
+		if progSeen[p] {
+			continue
+		}
+		if err := syn.CheckValid([]string{"escape"}, p); err != nil {
+			if h, ok := err.(syn.Hang); ok {
+				c.Reject("program:non-termination", "valid program: "+h.Error(), map[string]any{"text": []byte(p), "of": []byte(p), "prefix": false})
+				return nil
+			}
+			return err
+		}
+		progSeen[p] = true
+		progs = append(progs, p)
+		nEsc++
+	}
+	c.Set("escape_programs", nEsc)
 	c.Set("grammar", map[string]any{"exhaustive": map[string]int{"D": exD, "S": exS, "token_sequences": len(ex)},
 		"simulated":                    map[string]int{"D": simD, "walks": simN, "max_expansions": simS, "token_sequences": len(sim)},
 		"concretisations_per_sequence": reps, "valid_programs": len(progs)})
@@ -343,6 +367,72 @@ func run(c *lib.Ctx) error {
 	c.Assume("the Enter decision is observed through edit.VerifIsSyntaxComplete (verif build tag; the function the Enter binding calls) and, for a sample, through the real edit:smart-enter builtin on the code area of a real Editor (no event loop running)")
 	c.Assume("for prefixes that parse cleanly the Enter decision is Unspecified; valid programs found by fuzzing are not produced (outside this technique family)")
 	return nil
+}
+
+type escCase struct {
+	K       string `json:"k"`
+	Ds      []int  `json:"ds"`
+	Special bool   `json:"special"`
+}
+
+// escapePrograms lets TLC enumerate the valid escapes of DQEscape.tla (checking its theorem) and
+// renders each into valid programs.
+func escapePrograms(c *lib.Ctx, dir string) ([]string, error) {
+	r, err := syn.TLC(c, "DQEscape", lib.TLCRun{Dir: dir, Module: "DQEscape", Workers: 1, Timeout: 10 * time.Minute})
+	if err != nil {
+		return nil, err
+	}
+	if r.ErrKind != "" {
+		return nil, lib.Infra("DQEscape model: %s %s\n%s", r.ErrKind, r.Err, r.ErrTrace)
+	}
+	seen := map[string]bool{}
+	var out []string
+	nSpecial := 0
+	for _, line := range r.PrintedStrings() {
+		if seen[line] {
+			continue
+		}
+		seen[line] = true
+		var e escCase
+		if err := json.Unmarshal([]byte(line), &e); err != nil {
+			return nil, lib.Infra("DQEscape printed %q: %v", line, err)
+		}
+		digits := "0123456789abcdef"
+		if c.Rand.Intn(2) == 0 {
+			digits = "0123456789ABCDEF"
+		}
+		esc := "\\"
+		switch e.K {
+		case "x", "u", "U":
+			esc += e.K
+			for _, d := range e.Ds {
+				esc += string(digits[d])
+			}
+		case "o":
+			for _, d := range e.Ds {
+				esc += string(digits[d])
+			}
+		case "c":
+			if c.Rand.Intn(2) == 0 {
+				esc += "c"
+			} else {
+				esc += "^"
+			}
+			esc += string(rune(e.Ds[0]))
+		default:
+			return nil, lib.Infra("DQEscape: unknown escape kind %q", e.K)
+		}
+		out = append(out, "put \""+esc+"\"")
+		if e.Special {
+			nSpecial++
+			out = append(out, "echo \"a"+esc+"é\" $x")
+		}
+	}
+	if int64(len(seen)) != r.Distinct {
+		return nil, lib.Infra("DQEscape: TLC reported %d escapes, received %d", r.Distinct, len(seen))
+	}
+	c.Set("escapes", map[string]int{"generated": len(seen), "special": nSpecial})
+	return out, nil
 }
 
 func report(c *lib.Ctx, cases []pcase, bad []lib.BadCase) {
